@@ -685,6 +685,7 @@ func (c *Client) Do(ctx context.Context, q Query) (err error) {
 	var (
 		gotException atomic.Bool
 		recvFailed   atomic.Bool
+		sendFailed   atomic.Bool
 		colInfo      chan proto.ColInfoInput
 	)
 	if q.Result == nil && len(q.Input) > 0 {
@@ -717,8 +718,16 @@ func (c *Client) Do(ctx context.Context, q Query) (err error) {
 		}
 	}
 	sent := make(chan struct{})
-	g.Go(func() error {
+	g.Go(func() (rerr error) {
 		defer close(sent)
+		defer func() {
+			// Anything but giving up at a context check may have left half a
+			// packet on the wire: remember it, the error itself is lost when
+			// another goroutine of the group has failed first.
+			if rerr != nil && !errors.Is(rerr, context.Canceled) && !errors.Is(rerr, context.DeadlineExceeded) {
+				sendFailed.Store(true)
+			}
+		}()
 		// Sending data.
 		if err := c.sendQuery(ctx, q); err != nil {
 			return errors.Wrap(err, "send query")
@@ -843,7 +852,7 @@ func (c *Client) Do(ctx context.Context, q Query) (err error) {
 	})
 	if err := g.Wait(); err != nil {
 		if !c.IsClosed() {
-			if !gotException.Load() || !IsException(err) {
+			if !gotException.Load() || !IsException(err) || sendFailed.Load() {
 				// The call fails for another reason than a server exception
 				// that ended the stream: e.g. the sender hit a transport
 				// error first, or a callback returned an error (which may
